@@ -5,60 +5,60 @@ HERE = os.path.dirname(os.path.dirname(os.path.abspath(__file__)))
 
 # property -> (technique, level text, level note, design ref)
 CHECKS = {
- "C20": ("in-process reference-model monitor (reflect.DeepEqual round trip, recover() around every call) over generated tables, trivia-insertion variants and hostile byte strings",
+ "C20": ("in-process reference-model monitor (reflect.DeepEqual round trip, recover() around every call) over generated tables (written onto fresh and onto existing files), trivia-insertion variants and hostile byte strings",
          "Held on N executions: every generated table over the writable domain was written by the real writer and re-read by the real parser and compared value by value (Go type and float bits); every written file was re-parsed after inserting comments/blanks; hostile byte strings never crashed the parser. Exploration, not proof: strength = workload diversity (boundary floats/ints, structure-like strings, long lines).",
          "trusts the rig's generator to stay inside the stated domain; compiler/toml is linked from /repo's working tree by the wrapper's go build", "DESIGN.md §3 C20"),
 }
 NOT_YET = {}
-CHECKS["C01"] = ("reference-model monitor: generated core-language programs (typed mini-AST) executed by a reference interpreter and by the real pipeline (ferret -> embedded QBE -> as/ld -> native run, stdout to a file); thorough adds valgrind memcheck on a share of the executables; pinned probe programs for every fixed/open finding",
- "Held on N generated programs: each compiled natively without being rejected and printed exactly the reference interpreter's lines with the same termination kind, across all integer widths with boundary constants, casts, truncating division, structs/methods/by-value passing, enums+match, fixed and dynamic arrays, strings, recursion, closures, results with catch, references, loops with break/continue and observable evaluation order. Not a proof: strength = generator diversity (feature histogram in the evidence).",
- "the reference interpreter is the rig's reading of the stated semantics; constructs the property does not pin are not generated; the QBE register-allocator abort (kf-C01-rega) removes about 7% of generated programs from the comparison", "DESIGN.md §3 C01")
-CHECKS["C02"] = ("relational monitor: the same generated program (integer/struct/array/enum/loop programs, f32/f64 arithmetic programs, pinned probes) compiled by the real compiler for native and wasm; native executable vs .wasm under node with the shipped runtime.js; numeric comparison of float lines, termination-kind comparison",
+CHECKS["C01"] = ("reference-model monitor: generated core-language programs (typed mini-AST) executed by a reference interpreter and by the real pipeline (ferret -> embedded QBE -> as/ld -> native run, stdout to a file); thorough adds valgrind memcheck on a share of the executables; deterministic matrix programs (casts, operators, literal operands, parameters, write-through, constant flow, stale constants, ranges, self-referential aggregate assignment) and pinned probe programs for every fixed/open finding",
+ "Held on N generated programs: each compiled natively without being rejected and printed exactly the reference interpreter's lines with the same termination kind, across all integer widths with boundary constants, casts, truncating division, structs/methods/by-value passing, enums+match, fixed and dynamic arrays, strings, recursion, closures (top level, nested blocks, loops, shared captured variables), results with catch, references, range loops with steps, loops with break/continue and observable evaluation order. Not a proof: strength = generator diversity (feature histogram in the evidence).",
+ "the reference interpreter is the rig's reading of the stated semantics; constructs the property does not pin are not generated", "DESIGN.md §3 C01")
+CHECKS["C02"] = ("relational monitor: the same generated program (integer/struct/array/enum/loop programs, f32/f64 arithmetic programs, composite-value programs with whole-aggregate assignments, the deterministic matrix programs, pinned probes) compiled by the real compiler for native and wasm; native executable vs .wasm under node with the shipped runtime.js; numeric comparison of float lines, termination-kind comparison",
  "Held on N programs accepted by both back ends: identical value sequences (floats within 1e-12 / 1e-5 for f32) and the same termination kind (normal vs panic/trap) on pointer size 8 (native) and 4 (wasm), including heap growth in runtime.js and out-of-bounds panics.",
  "programs rejected by either target or crashing the compiler are out of scope and only counted; the wasm back end lacks closures, results and strings, so those features are compared by C01 only", "DESIGN.md §3 C02")
-CHECKS["C04"] = ("reference-model monitor with dynamic index semantics over generated fixed-array programs (literal, const, reassigned, branch/match-dependent, loop-carried, incremented, borrowed, closure-modified, arithmetic and opaque indices) with canary locals; native run (thorough: valgrind on a share)",
+CHECKS["C04"] = ("reference-model monitor with dynamic index semantics over generated fixed-array programs (literal, const, reassigned, branch/match-dependent, loop-carried, incremented, borrowed, closure-modified, arithmetic and opaque indices, uses where no sound analysis knows the index) plus a directed matrix of 25 index-modifying containers x 7 use positions x taken/not taken x index known/unknown before, with canary locals; native run (thorough: valgrind on a share)",
  "Held on N programs: every program was either rejected with only T0028/T0009 (never when all indices were in-range literals/consts) or printed exactly the reference's lines — the element selected by the value the index has at that moment, negative values counting from the end — with untouched canaries, or panicked exactly where the reference does.",
  "scenario templates are the rig's reading of the property's index classes", "DESIGN.md §3 C04")
-CHECKS["C08"] = ("reference-model monitor over generated dynamic-array / string histories (literal, appends across growth thresholds, get/set/len/iteration, literal / let-bound / opaque indices at and around the bounds) on native (stdout to a file) and wasm; pinned probes",
+CHECKS["C08"] = ("reference-model monitor over generated dynamic-array / string histories (literal, appends across growth thresholds, get/set/len/iteration, arrays of arrays and struct-held arrays, literal / let-bound / opaque indices of every integer type at and around the bounds and beyond 32 bits, directed boundary values of every index type) on native (stdout to a file) and wasm; pinned probes",
  "Held on N histories: every index valid for the current length (negative and post-append positions included) was accepted and returned the stored element; every out-of-range index ended the program with an 'index out of bounds' panic and non-zero status after delivering all previously printed lines (or, for a compile-time-known index only, was rejected with T0009); no valgrind report in thorough.",
- "one array and one string per history; maps are outside this property", "DESIGN.md §3 C08")
-CHECKS["C09"] = ("relational monitor over pairs (generated program, meaning-preserving rewrite: literal->call, subexpression->local, let->const, wrap in if true) compiled and run natively (thorough: also wasm); the reference interpreter is a third witness naming the wrong side",
+ "index values of u64 expressions stay below 2^63 (the rig models values as int64); maps are outside this property", "DESIGN.md §3 C08")
+CHECKS["C09"] = ("relational monitor over pairs (generated program or deterministic matrix program, meaning-preserving rewrite: literal->call incl. conditions and range operands, subexpression->local, let->const, wrap in if true) compiled and run natively (thorough: also wasm); the reference interpreter is a third witness naming the wrong side",
  "Held on N pairs with >=1 rewrite applied: base and variant were both accepted and printed identical output with the same termination; the evidence lists how many rewrites of each kind were exercised.",
  "fixed-array index literals and match patterns are not rewritten; expressions that can panic or have side effects are never moved", "DESIGN.md §3 C09")
-CHECKS["C03"] = ("verdict monitor by construction over the real type checker (in-process pool + CLI confirmation): generated well-typed base programs accepted by the compiler, mutated by injecting exactly one violation from a 17-rule catalogue (plain spellings and the same violation nested in 22 expression contexts) at a random site of a random statement context; native build sample observes that no executable is left",
+CHECKS["C03"] = ("verdict monitor by construction over the real type checker (in-process pool + CLI confirmation): generated well-typed base programs accepted by the compiler, mutated by injecting exactly one violation from a 17-rule catalogue (plain spellings, narrowing inside composite types, and the same ill-typed expression nested in 52 expression contexts, each context validated first with a well-typed operand; every (expression, context) pair also once in a minimal program) at a random site of a random statement context; native build sample observes that no executable is left",
  "Held on N mutants (14 or 400 base programs x 17 rule classes, spellings rotating over about 200 snippets, sites drawn from main/function/method/closure/if/else/while/for/match-arm/block): every base was accepted and every mutant was rejected with exit 1 and at least one error diagnostic, no crash; the sampled native builds left no executable.",
  "catalogue and contexts are the rig's reading of the property's list; snippets are self-contained so the violated rule is known by construction", "DESIGN.md §3 C03")
-CHECKS["C19"] = ("relational monitor with an independent position model over the real compiler (in-process pool + CLI confirmation; token boundaries from the compiler's own lexer through the verif hook): program vs. the same program with trivia inserted in 1..40 token gaps; compares verdict, exit status, the multiset of located diagnostics mapped through the token correspondence, and the output of the produced native executables",
+CHECKS["C19"] = ("relational monitor with an independent position model over the real compiler (in-process pool + CLI confirmation; token boundaries from the compiler's own lexer through the verif hook): program (usual layout, or condensed onto one line) vs. the same program with trivia inserted in 1..40 token gaps (the usual layout is itself a variant of the one-line layout); compares verdict, exit status, the multiset of located diagnostics mapped through the token correspondence, and the output of the produced native executables",
  "Held on N (program, reformatted program) pairs over accepted generated programs, type-error twins (one C03 rule injected) and parse-error twins (token deleted / duplicated / swapped): same verdict and exit status, every diagnostic reported for the reformatted text at exactly the line:column the rig's own position model assigns to the same token, and for accepted programs identical printed lines and termination.",
  "tabs only as the last character of a whitespace run (documented Position.Advance quirk); @extern text never right before `fn` (documented pragma); base texts are generator-printed ASCII", "DESIGN.md §3 C19")
 CHECKS["C05"] = ("verdict monitor (reference path analysis -> MUST_REJECT / MUST_ACCEPT / MAY with a trailing-return control group) over the real type checker via the in-process pool with CLI confirmation, plus reference-model monitor: every accepted function/method/closure is executed natively over an argument grid and compared with the reference interpreter, which detects falling off the end",
- "Held on N generated bodies (nested if/else-if/else, int and enum match with/without default, while/for with break/continue, early returns; as functions, methods and function literals): every body with a syntactic path to its end was rejected while the same body with a trailing return was accepted; every all-paths-return body was accepted; every accepted callable returned, for all 25 grid argument tuples, exactly the value of the return statement the reference interpreter executes.",
+ "Held on N generated bodies (nested if/else-if/else, int and enum match with/without default, while/for with break/continue, `while true` around constructs ending in return/break, early returns, conditions over parameters and over locals that are constant elsewhere in the function, 14 directed stale-constant templates; as functions, methods, function literals and nested function literals): every body with a syntactic path to its end was rejected while the same body with a trailing return was accepted; every all-paths-return body was accepted; every accepted callable returned, for all 25 grid argument tuples, exactly the value of the return statement the reference interpreter executes.",
  "conditions opaque; exhaustive enum matches without default are MAY; statements after a return are not generated", "DESIGN.md §3 C05")
-CHECKS["C07"] = ("verdict monitor with an executable loan model (MUST_REJECT / MUST_ACCEPT / MAY) over generated borrow/use/access event sequences compiled by the real borrow checker (in-process pool + CLI confirmation), plus reference-model monitor: accepted programs are run natively and compared with the interpreter (write-through both ways); fixed cases for returned references; pinned probes for derived references",
- "Held on N event sequences over variables, disjoint struct fields and array elements with up to three shared/mutable references in straight-line code, blocks, ifs and loops: every sequence with a conflicting access while the reference is still used later was rejected, every conflict-free sequence was accepted, returning a reference to a local was rejected, and every accepted program printed what the reference interpreter prints.",
+CHECKS["C07"] = ("verdict monitor with an executable loan model (MUST_REJECT / MUST_ACCEPT / MAY) over generated borrow/use/access event sequences compiled by the real borrow checker (in-process pool + CLI confirmation), plus reference-model monitor: accepted programs are run natively and compared with the interpreter (write-through both ways); directed cases (reference used inside a nested construct, conflict after 0-6 other statements), fixed cases for returned references; pinned probes for derived references",
+ "Held on N event sequences over variables, disjoint struct fields and array elements with up to three shared/mutable references (borrowed or copied from another reference variable) in straight-line code, blocks, if / else / else-if arms, match arms and loops: every sequence with a conflicting access while the reference is still used later was rejected, every conflict-free sequence was accepted, returning a reference to a local was rejected, and every accepted program printed what the reference interpreter prints.",
  "loan model = the rig's reading of the property; distinct array elements and statement-granularity expiry are MAY; references derived through calls are an open finding (kf-C07-derived)", "DESIGN.md §3 C07")
 CHECKS["C06"] = ("verdict monitor by construction over the real type checker (in-process pool + CLI confirmation), complete enumeration of place kind x access path x mutation form x context with a mutable-binding control group; native value witness for wrongly accepted cases",
- "Exhaustive over the finite product the property names (2359 mutants + controls): every program applying one mutation form to one immutable place was rejected by the real compiler while the same program with the binding made mutable was accepted, so each verdict is attributable to the immutability rule.",
+ "Exhaustive over the finite product the property names and its neighbours (about 3070 mutants + controls: const scalars, structs, fixed and dynamic arrays, strings, maps, optionals, module constants, two-variable loops over arrays / ranges / strings / map keys with named and discarded value variables, catch variables, &T parameters / receivers / locals): every program applying one mutation form to one immutable place was rejected by the real compiler while the same program with the binding made mutable was accepted, so each verdict is attributable to the immutability rule.",
  "the enumerated product is the rig's reading of the property's dimensions; syntactic contexts outside the seven listed are not covered", "DESIGN.md §3 C06")
 CHECKS["C10"] = ("verdict monitor (math/big range oracle) over the real type checker via the in-process pool with CLI confirmation, plus reference-value monitor over native executables and wasm modules printing every accepted literal",
- "Held on N literals: for each of the 12 integer types, boundary values (min-1..max+1), 2^k+-1 and random magnitudes up to 2^300 spelled in 4 bases with separators and sign, in let/argument/return positions, were accepted exactly when in range; every accepted literal was then printed by a produced native executable (all widths) and wasm module (<=64 bit) and equalled its mathematical value.",
+ "Held on N literals: for each of the 12 integer types, boundary values (min-1..max+1), 2^k+-1 and random magnitudes up to 2^300 spelled in 4 bases with separators and sign, in let/argument/return positions (and nine further positions: assignment, compound assignment, binary operand, field, array elements, element assignment, const, catch fallback), were accepted exactly when in range; every accepted literal was then printed by a produced native executable (all widths) and wasm module (<=64 bit) and equalled its mathematical value.",
  "trusts math/big; spelling space sampled, not enumerated; leading-zero decimals excluded", "DESIGN.md §3 C10")
-CHECKS["C11"] = ("verdict monitor over the real compiler (in-process worker pool + CLI confirmation): exhaustive 17x17 type pairs x 10 assignment-like positions against an arithmetic oracle; native run-time spot check of accepted pairs",
- "Exhaustive over the finite space the property names: every ordered pair of the 17 numeric types in 10 assignment-like positions was compiled by the real type checker; accepted-without-cast implied lossless by an oracle computed from ranges and significand widths (not from the compiler's table); every lossy pair was rejected implicitly and accepted with `as`; accepted pairs up to 64 bits were executed natively on the boundary values of S.",
- "trusts the oracle's float parameters (24/53/113/237-bit significands); positions outside the ten listed are not covered", "DESIGN.md §3 C11")
+CHECKS["C11"] = ("verdict monitor over the real compiler (in-process worker pool + CLI confirmation): exhaustive 17x17 type pairs x 21 assignment-like positions against an arithmetic oracle; native run-time check converting the boundary values of S in every accepted position of every accepted pair",
+ "Exhaustive over the finite space the property names: every ordered pair of the 17 numeric types in 21 assignment-like positions was compiled by the real type checker; accepted-without-cast implied lossless by an oracle computed from ranges and significand widths (not from the compiler's table); every lossy pair was rejected implicitly and accepted with `as`; accepted pairs up to 64 bits were executed natively on the boundary values of S in all of their accepted positions and printed the unchanged value.",
+ "trusts the oracle's float parameters (24/53/113/237-bit significands); positions outside the 21 listed are not covered", "DESIGN.md §3 C11")
 CHECKS["C12"] = ("verdict monitor by construction over generated multi-module projects compiled by the real compiler (in-process pool + CLI confirmation): lowercase/uppercase twins of every symbol kind in identical access sites, contexts and import shapes, enumerated completely",
- "Exhaustive over the enumerated catalogue (about 3000 projects): in every access site x context x import shape the lowercase twin (const, variable, function, struct type, enum type, struct field; other module and same module outside the receiver) was rejected and the uppercase twin in the identical position accepted; struct literals initialising private fields and receiver access were accepted.",
+ "Exhaustive over the enumerated catalogue (about 6000 projects): in every access site x context x import shape the lowercase twin (const, variable, function, struct type, enum type, struct field, struct field sharing its name with a method; other module and same module outside the receiver) was rejected and the uppercase twin in the identical position accepted; struct literals initialising private fields and receiver access were accepted.",
  "catalogue = the rig's reading of the property's dimensions; private methods / enum variants not asserted", "DESIGN.md §3 C12")
 CHECKS["C13"] = ("crash/hang/contract monitor over hostile inputs: in-process worker pool (panic caught with stack, worker death attributed to the logged job) for type-check and wasm targets, real CLI under RLIMIT_CPU for native target and for every suspicious input; predicates over the outcome record (exit status vs diagnostics vs artifact vs locations)",
- "Held on N hostile inputs (random bytes, UTF-8 noise, truncations, token mutations of the corpus, token soup, deep nesting, encoding oddities, malformed multi-file projects): no Go panic/fatal error/signal, CPU budget respected, exit status in {0,1} and equal to 'an error diagnostic was printed', artifact present iff success, every printed location inside an input file.",
+ "Held on N hostile inputs (random bytes, UTF-8 noise, truncations, token mutations of the corpus, token soup, deep nesting, encoding oddities, malformed multi-file projects, an import-path-spelling x alias-use matrix, a separator matrix): no Go panic/fatal error/signal, CPU budget respected, exit status in {0,1} and equal to 'an error diagnostic was printed', artifact present iff success, every printed location inside an input file.",
  "CPU budget (20 s) and input size bound (16 KiB, nesting <= 400) are the rig's choices; a wall-clock watchdog firing is inconclusive", "DESIGN.md §3 C13")
 CHECKS["C14"] = ("relational monitor across repeated compilations of generated multi-module projects under perturbed schedules (verif hook: Gosched/sleep at parse points + event log proving distinct parse orders), varied GOMAXPROCS, the Go race detector, and the plain binary; byte comparison of exit status, stderr, gen/*.ssa and .wasm",
- "Held on N projects x K schedules: every run of the same project directory (hook-perturbed ferret-verif under GOMAXPROCS 1/2/4/16, ferret-race, plain ferret; native -keep-gen and wasm) produced the same exit status, byte-identical diagnostics, QBE IL per module and .wasm; the event log showed >=2 distinct parse orders per counted project; the race detector reported nothing.",
+ "Held on N projects (ok / type errors / parse errors / parse-error next to single-importer chains / import cycle; most modules reachable only through other modules) x K schedules: every run of the same project directory (hook-perturbed ferret-verif under GOMAXPROCS 1/2/4/16, ferret-race, plain ferret; native -keep-gen and wasm) produced the same exit status, byte-identical diagnostics, QBE IL per module and .wasm; the event log showed >=2 distinct parse orders per counted project; the race detector reported nothing.",
  "schedules are sampled (hook points + GOMAXPROCS), not enumerated; map-order nondeterminism is only seen with probability per run; cyclic projects are compared on exit status/presence of the error only (open finding kf-C14-cycle)", "DESIGN.md §3 C14")
-CHECKS["C15"] = ("verdict monitor by construction over projects generated from digraphs (all 512 on 3 modules + sampled larger) compiled by hook-perturbed workers and the ferret-verif CLI under varied GOMAXPROCS/VERIF_SCHED, native run of every DAG against an arithmetic oracle; offline exactly-once checker over the parse event log; porcupine linearizability check of concurrent AddDependency histories recorded at the client boundary",
+CHECKS["C15"] = ("verdict monitor by construction over projects generated from digraphs (all 512 on 3 modules + sampled larger + a cycle stress of sibling 2-/3-cycles with hubs, repeated) compiled by hook-perturbed workers and the ferret-verif CLI under varied GOMAXPROCS/VERIF_SCHED, native run of every DAG against an arithmetic oracle; offline exactly-once checker over the parse event log; porcupine linearizability check of concurrent AddDependency histories recorded at the client boundary",
  "Held on all 512 digraphs over 3 non-entry modules (exhaustive for that size) and sampled digraphs on 4-6 modules: every cyclic project (self-loops included) failed with a circular-import error and exit 1 without hanging, every DAG compiled under each schedule, its executable printed id+sum-of-dependencies for every module, each module was parsed exactly once; N concurrent AddDependency histories were linearizable w.r.t. 'reject iff imported reaches importer, else insert' and the final graph equalled the accepted edges.",
  "schedules sampled not enumerated; graphs with >3 modules sampled; porcupine timeouts are inconclusive", "DESIGN.md §3 C15")
-CHECKS["C18"] = ("invariant monitor over the compiler's own DataLayout (verif hook, in-process) for random type expressions at pointer sizes 4 and 8, plus reference-model monitor over generated composite programs (full-width sentinels in every leaf, single-leaf overwrites, copies, by-value calls, optional some/none, canaries) run natively and on wasm",
+CHECKS["C18"] = ("invariant monitor over the compiler's own DataLayout (verif hook, in-process) for random type expressions at pointer sizes 4 and 8, plus reference-model monitor over generated composite programs (full-width sentinels in every leaf, single-leaf overwrites, copies, whole sub-aggregate assignments, arrays of 2-7 byte structs, by-value calls, optional some/none, canaries) run natively and on wasm",
  "Held on N type expressions x 2 pointer sizes (no overlapping or out-of-bounds field, offsets aligned, size multiple of alignment, array stride = element size, optional flag and result discriminant inside the value) and on M generated programs in which every leaf, after every overwrite/copy/call/optional wrap, read back exactly its sentinel while all other leaves and the canary locals stayed unchanged.",
  "results with aggregate payloads are rejected by the native back end today and therefore not in the dynamic part; optionals and 128/256-bit leaves run natively only", "DESIGN.md §3 C18")
 CHECKS["C16"] = ("reference-model monitor: math/big oracle over the exported C API of bigint.c (value and _ptr forms) behind a clang ASan+UBSan driver, limb-boundary-weighted operand workload; plus an end-to-end layer: generated Ferret programs over i128/u128/i256/u256 (operators, comparisons, ** , casts from/to every narrower integer type and between the large types, compound assignment, ++/--, by-value calls, struct fields, fixed-array elements, loops, branches) compiled by the real compiler, linked with the real runtime, run natively and compared value by value with math/big",
